@@ -298,9 +298,13 @@ pub fn check(c: &Case5, st: &mut Stats, tier: Tier) -> CheckResult {
             ensure!(same(&m1, &ra.mul(&rb)), "c05:mul-sequence", "{} * {} is not {}", ra.to_dec(), rb.to_dec(), ra.mul(&rb).to_dec());
             ensure!(same(&m2, &ra2.mul(&rb2)), "c05:mul-sequence", "{} * {} computed right after the neighbouring product is not {}", ra2.to_dec(), rb2.to_dec(), ra2.mul(&rb2).to_dec());
             ensure!(same(&s1, &ra.add(&rb)) && same(&s2, &ra2.add(&rb2)), "c05:add-sequence", "sums of neighbouring pairs {} + {} / {} + {}", ra.to_dec(), rb.to_dec(), ra2.to_dec(), rb2.to_dec());
-            // then the full battery on both pairs
-            check(&Case5::Pair { a: a.clone(), b: b.clone() }, st, tier)?;
-            check(&Case5::Pair { a: a2.clone(), b: b2.clone() }, st, tier)?;
+            // then the full battery on both pairs (counted as ONE case: the sequence)
+            let mut inner = Stats::new();
+            check(&Case5::Pair { a: a.clone(), b: b.clone() }, &mut inner, tier)?;
+            check(&Case5::Pair { a: a2.clone(), b: b2.clone() }, &mut inner, tier)?;
+            if !inner.nontrivial.is_empty() {
+                st.nontrivial(&(a, b, deltas, on_b), || json!({"sequence": {"a": ra.to_dec(), "b": rb.to_dec(), "then_a": ra2.to_dec(), "then_b": rb2.to_dec()}}));
+            }
             st.class("consecutive operations on neighbouring operands");
             Ok(())
         }
@@ -427,7 +431,7 @@ pub fn run(ctx: &Ctx, out: &mut Outcome) {
     search::<Case5>(ctx, out, "pairs", n_pairs, &move || pair_strategy(max), &move |c, st| check(c, st, tier));
     // a band of short operands: dense coverage of 1-3 limb patterns
     search::<Case5>(ctx, out, "pairs-short", tier.pick(40_000, 400_000), &|| pair_strategy(3), &move |c, st| check(c, st, tier));
-    search::<Case5>(ctx, out, "runs", tier.pick(20_000, 200_000), &runs_strategy, &move |c, st| check(c, st, tier));
+    search::<Case5>(ctx, out, "runs", tier.pick(12_000, 150_000), &runs_strategy, &move |c, st| check(c, st, tier));
     search::<Case5>(ctx, out, "near-sequences", tier.pick(100_000, 600_000), &|| near_sequence_strategy(3), &move |c, st| check(c, st, tier));
     search::<Case5>(ctx, out, "new", tier.pick(20_000, 200_000), &new_strategy, &move |c, st| check(c, st, tier));
     if !out.failed() {
